@@ -238,6 +238,24 @@ Proof. vm_compute. reflexivity. Qed.
 Example C06_ex_fuel : (reg_height ex_reg * S (ex_rank (b "a.t")) = 10)%nat.
 Proof. vm_compute. reflexivity. Qed.
 
+(* two inputs under the same (empty) file name, a long one and a short one: well-formed, and an error at
+   the end of the long one is reported against the long one's own text (line 3) *)
+Definition same_long : bstr := Eval vm_compute in
+  b ("{namespace l}" ++ String (ascii_of_N 10) ("// padding padding padding padding padding" ++ String (ascii_of_N 10) "{template .t}{1 < 'a'}{/template}")).
+Definition same_short : bstr := Eval vm_compute in b "{namespace s}{template .t}x{/template}".
+Definition same_reg : registry :=
+  {| r_templates := [ {| t_name := b "l.t"; t_node := NTemplate 57 (b "l.t") (NList 70 [NPrint 70 (NBin OLt 71 (NInt 71 1) (NString 75 (b "'a'") (b "a"))) []]) 0 false;
+                         t_ns_name := b "l"; t_ns_autoescape := 0; t_params := []; t_file := [] |};
+                      {| t_name := b "s.t"; t_node := NTemplate 13 (b "s.t") (NList 26 [NRawText 26 (b "x")]) 0 false;
+                         t_ns_name := b "s"; t_ns_autoescape := 0; t_params := []; t_file := [] |} ];
+     r_sources := [(b "l.t", same_long); (b "s.t", same_short)];
+     r_files := [(b "l.t", []); (b "s.t", [])] |}.
+Example C06_ex_same_file_name :
+  reg_ok same_reg = true /\
+  let r := render {| c_reg := same_reg; c_ij := None; c_oblig := []; c_msgs := None |} 100 (b "l.t") 2 [] None None 10 in
+  is_err (rr_outcome r) = true /\ rr_line r = 3.
+Proof. vm_compute. repeat split; reflexivity. Qed.
+
 (* ================================================================== *)
 (* The pinned behaviours, as witnesses                                 *)
 (* ================================================================== *)
